@@ -85,21 +85,26 @@ structure PInv (s : State) : Prop where
   podsNodup : (Tbl.keys s.pods).Nodup
   storeOwn : ∀ q, LiveBound s.pods q → ∀ hd, hd ∈ q.handed →
     ∃ r, Tbl.get s.store hd.ip = some r ∧ r.key = keyOf q ∧ r.uid = q.uid ∧ configured s.pools hd.ip = true
+  adminStore : ∀ ip r, Tbl.get s.admin ip = some r → Tbl.get s.store ip = some r ∧ r.key.isAdmin = true
 
 theorem Inv.toPInv {s : State} (h : Inv s) : PInv s :=
   ⟨h.podsWF, h.uidUniq, h.uidPos, h.podsNodup, fun q hq hd hm => by
     obtain ⟨r, h1, h2, h3⟩ := h.safe.own q hq hd hm
-    exact ⟨r, by rw [h.coh.agree]; exact h1, h2, h3, h.coh.allocConf _ r h1⟩⟩
+    exact ⟨r, by rw [h.coh.agree]; exact h1, h2, h3, h.coh.allocConf _ r h1⟩,
+   fun ip r hr => ⟨by rw [h.coh.agree]; exact (h.safe.admin ip r hr).1, (h.safe.admin ip r hr).2⟩⟩
 
 /-- the side conditions of the moves (decidable, evaluated in the state the move starts from) - the scope the
     property itself states:
     * `createPod`: non-empty namespace, pod name and owner name (what the API server guarantees);
     * `bind`: the request carries the pod UID (`args.PodUID`, the scheduler always sends it);
+    * `apiRelease`: the request does not name an administrator's reservation (the HTTP handler always builds a key with
+      an application-type prefix, `api.go` ReleaseIPs; a reservation's key has none);
     * `reload`: the new configuration still contains the addresses of the live bound pods ("no configuration reload
       that still contains the IP" is the property's own quantifier). -/
 def assumed (s : State) : Move → Bool
   | .createPod ns name kind app _ _ _ _ => ns ≠ "" && name ≠ "" && (kind == .bare || app ≠ "")
   | .bind _ _ uid _ _ _ _ => uid != 0
+  | .apiRelease _ k _ _ => !k.isAdmin
   | .reload pools _ =>
     s.pods.all (fun e => e.2.finished || e.2.handed.all (fun h => configured pools h.ip))
   | _ => true
@@ -132,9 +137,10 @@ theorem liveBound_set_self {P : Pods} {id : String × String} {p q : Pod} (h : L
 
 /-- shrinking the set of live bound pods keeps the records safe -/
 theorem Safe.anti {P P' : Pods} {s : State} (h : Safe P s) (hsub : ∀ q, LiveBound P' q → LiveBound P q) : Safe P' s :=
-  ⟨fun q hq => h.own q (hsub q hq)⟩
+  ⟨fun q hq => h.own q (hsub q hq), h.admin⟩
 
-theorem Safe.of_alloc_eq {P : Pods} {s s' : State} (h : Safe P s) (ha : s'.alloc = s.alloc) : Safe P s' :=
-  ⟨fun q hq hd hm => by rw [ha]; exact h.own q hq hd hm⟩
+theorem Safe.of_alloc_eq {P : Pods} {s s' : State} (h : Safe P s) (ha : s'.alloc = s.alloc)
+    (hadm : s'.admin = s.admin := by rfl) : Safe P s' :=
+  ⟨fun q hq hd hm => by rw [ha]; exact h.own q hq hd hm, fun ip r hr => by rw [ha]; rw [hadm] at hr; exact h.admin ip r hr⟩
 
 end Galaxy.Plugin
